@@ -5,6 +5,7 @@
 package rig
 
 import (
+	"math/big"
 	"context"
 	"sync"
 	"crypto/sha256"
@@ -184,6 +185,8 @@ type Rig struct {
 	// Ops are harness operations callable through InjectOp.
 	Ops map[string]func(ctx sdk.Context, args json.RawMessage) error
 
+	// Poison: see Mk.
+	Poison func() bool
 	// CommitMu excludes concurrent readers (race-stress query storm) during Commit only, as a node's ABCI connections do.
 	CommitMu sync.RWMutex
 
@@ -583,8 +586,19 @@ type Tx struct {
 	Tag   any
 }
 
-// Mk builds a signed tx with a tag.
+// PoisonedTag replaces the tag of a transaction to which the rig appended a message that cannot succeed.
+type PoisonedTag struct{ Inner any }
+
+// Mk builds a signed tx with a tag. If r.Poison is set and returns true for a single-message transaction, a second
+// message that always fails (a self-transfer of more coins than exist) is appended: the first message runs to the end
+// on the transaction's branch and the whole transaction is then rolled back; the tag is wrapped in PoisonedTag so that
+// the workload that built it treats it as not its own.
 func (r *Rig) Mk(a *Account, tag any, msgs ...sdk.Msg) Tx {
+	if r.Poison != nil && len(msgs) == 1 && r.Poison() {
+		huge := sdkmath.NewIntFromBigInt(new(big.Int).Lsh(big.NewInt(1), 250))
+		msgs = append(msgs, banktypes.NewMsgSend(a.Addr, a.Addr, sdk.NewCoins(sdk.NewCoin(BondDenom, huge))))
+		tag = &PoisonedTag{Inner: tag}
+	}
 	return Tx{Bytes: r.BuildTx(a, "", msgs...), Tag: tag}
 }
 
